@@ -89,13 +89,18 @@ def case_out_buffers(rep):
                 r = np.array(f([F, None], out=fresh)[0])
                 garbage = rng.standard_normal(shape + batch)
                 g = np.array(f([F, None], out=garbage)[0])
+                # what an uninitialised buffer, or one left behind by a failed (inverted) trial state, may hold
+                poisoned = rng.standard_normal(shape + batch)
+                poisoned.ravel()[::3] = np.nan
+                poisoned.ravel()[1::7] = np.inf
+                pz = np.array(f([F, None], out=poisoned)[0])
                 # reuse: the buffer holds the previous result (as SolidBody does)
                 buf = np.zeros(shape + batch)
                 f([F, None], out=buf)
                 f([F, None], out=buf)
                 reused = np.array(f([F2, None], out=buf)[0])
                 s = max(maxabs(ref1), 1e-300)
-                for tag, got, ref in (("fresh", r, ref1), ("garbage", g, ref1), ("reused", reused, ref2)):
+                for tag, got, ref in (("fresh", r, ref1), ("garbage", g, ref1), ("reused", reused, ref2), ("non-finite", np.nan_to_num(pz, nan=1e300, posinf=1e300, neginf=-1e300), ref1)):
                     run.compare(mon, "model=%s method=%s clause=out-buffer-%s" % (name, what, tag), maxabs(got - ref) / s, 1e-13,
                                 "%s.%s(out=%s buffer) differs from the result without a buffer" % (name, what, tag),
                                 unit="out:%s:%s" % (name, what), config=(name, what, tag))
